@@ -19,6 +19,9 @@ THEOREMS = [
     "PorepyVerif.C39.neu_does_not_override",
     "PorepyVerif.C39.bcv_componentwise",
     "PorepyVerif.C39.set_bc_type_is_last_assignment",
+    "PorepyVerif.C39.bcv_history_last_assignment",
+    "PorepyVerif.C39.bcv_internal_boundary_default",
+    "PorepyVerif.C39.internal_to_dirichlet_spec",
     "PorepyVerif.C39.bc_rejects_wrong_mask",
     "PorepyVerif.C39.bc_rejects_non_boundary",
     "PorepyVerif.C39.bc_rejects_length_mismatch",
@@ -31,7 +34,8 @@ N = {"quick": 400, "thorough": 12000}
 RULE = ("grid drawn from: Cartesian 1d/2d/3d, structured triangle/tetrahedral grids, every subdomain (3d..0d) of split fractured grids "
         "(meshing.cart_grid with 1-2 fractures in 2d/3d, mdg_library square/cube with orthogonal fractures, Cartesian and gmsh simplex), "
         "and Cartesian grids with extra synthetic fracture/tip tags on interior faces; variant scalar (one constructor call) or vectorial "
-        "(constructor + 0-4 set_bc calls); each call assigns 0-7 faces, mostly boundary faces, repeated faces with different keywords are "
+        "(constructor + 0-4 set_bc / internal_to_dirichlet calls); a quarter of the calls is stratified to list the SAME face with 'dir' and with 'rob' "
+        "(both orders, other pairs in between) in one call; each call assigns 0-7 faces, mostly boundary faces, repeated faces with different keywords are "
         "frequent, faces given as index array (any order, repeats) or boolean mask, keywords as one string or a list, random letter case; "
         "about 25% of the calls are malformed (interior face, negative / too large index, wrong mask size, wrong number of keywords, "
         "unknown keyword at a random position, cond=None); non-trivial = some face gets two different keywords, or the grid has "
@@ -45,7 +49,9 @@ EXPLANATION = ("FULL: model = the three boolean arrays (per component for the ve
                "with the argument validation in the order of the code. Theorems hold for every grid abstraction (face count + three arbitrary tag sets) "
                "and every face/keyword list: exactly one type on boundary faces, none elsewhere, unassigned boundary faces Neumann, the type of a face "
                "is the last dir/rob given for it ('neu' is a no-op in the code: 'neu' after 'dir' leaves the face Dirichlet - stated as theorem "
-               "neu_does_not_override), vectorial per component after any history of set_bc calls including failing ones. "
+               "neu_does_not_override), vectorial per component after any history of set_bc / internal_to_dirichlet calls including failing ones "
+               "(bcv_history_last_assignment: the arrays depend only on the last dir/rob written per (component, face); fracture faces default to Neumann). "
+               "internal_to_dirichlet is modelled as the property requires (Robin flag cleared); the code leaves it set - open finding. "
                "Correspondence compares the three arrays exactly after every call, the warning flag and the exception class.")
 ASSUMPTIONS = ["index arrays are 1-d integer arrays, masks 1-d boolean arrays (what the generator produces)"]
 
@@ -161,6 +167,17 @@ def _gen_call(rng, g, allow_none_faces):
             faces.append(rng.choice(bf))
     malformed = None
     r = rng.random()
+    if bf and rng.random() < 0.25:
+        # stratum: one face listed with two different types in the same call (index array, keyword list)
+        f = rng.choice(bf)
+        a, b = rng.sample(KEYWORDS, 2) if rng.random() < 0.4 else rng.sample(["dir", "rob"], 2)
+        i = rng.randint(0, len(faces))
+        faces.insert(i, f)
+        j = rng.randint(i + 1, len(faces))
+        faces.insert(j, f)
+        cond = [_kw(rng) for _ in faces]
+        cond[i], cond[j] = a, b
+        return {"faces": {"idx": faces}, "cond": cond}, None
     as_mask = rng.random() < 0.35
     if as_mask:
         faces = sorted(set(faces))
@@ -235,7 +252,11 @@ def gen_case(rng, tier):
     variant = rng.choice(["scalar", "vector"])
     calls, mal = [], []
     ncalls = 1 if variant == "scalar" else 1 + rng.randint(0, 4 if tier == "quick" else 7)
-    for _ in range(ncalls):
+    for k in range(ncalls):
+        if k > 0 and rng.random() < 0.15:
+            calls.append({"itd": True})  # internal_to_dirichlet(sd)
+            mal.append(None)
+            continue
         c, m = _gen_call(rng, g, True)
         calls.append(c)
         mal.append(m)
@@ -288,6 +309,10 @@ def impl_run(case):
         if bc is None:
             out.append({"err": "no-object"})
             continue
+        if c.get("itd"):
+            _, exc, _ = _call_real(bc.internal_to_dirichlet, g)
+            out.append({"comps": _comps(bc), "raised": type(exc).__name__ if exc else None})
+            continue
         _, exc, _ = _call_real(bc.set_bc, _faces_arg(c["faces"]), c["cond"])
         out.append({"comps": _comps(bc), "raised": type(exc).__name__ if exc else None})
     return out
@@ -304,7 +329,7 @@ def model_ops(case):
     else:
         ops.append({"op": "vector", "dim": int(g.dim), "faces": calls[0]["faces"], "cond": calls[0]["cond"]})
         for c in calls[1:]:
-            ops.append({"op": "set_bc", "faces": c["faces"], "cond": c["cond"]})
+            ops.append({"op": "internal_to_dirichlet"} if c.get("itd") else {"op": "set_bc", "faces": c["faces"], "cond": c["cond"]})
     return ops
 
 
@@ -416,11 +441,36 @@ def oracle(case):
     rows = (lambda: [(bc.is_neu, bc.is_dir, bc.is_rob)]) if scalar else (lambda: [(bc.is_neu[d], bc.is_dir[d], bc.is_rob[d]) for d in range(bc.is_neu.shape[0])])
     if not scalar and bc.is_neu.shape[0] != g.dim:
         return {"what": "vectorial object does not have sd.dim components", "key": "vectorial-components"}
+    # robin_weight / basis take no part in the partition; their defaults are checked for shape and value only
+    if scalar:
+        if bc.robin_weight.shape != (g.num_faces,) or not np.all(bc.robin_weight == 1) or not np.all(bc.basis == 1):
+            return {"what": "scalar robin_weight / basis are not arrays of ones per face", "key": "scalar-robin-weight-default"}
+    else:
+        eye = np.repeat(np.eye(g.dim)[:, :, None], g.num_faces, axis=2)
+        if not np.array_equal(bc.robin_weight, eye) or not np.array_equal(bc.basis, eye):
+            return {"what": "vectorial robin_weight / basis are not the identity per face", "key": "vectorial-robin-weight-default"}
     history = _pairs(c0)
     r = _check_partition(rows(), bf_mask, f"{tag} constructor") or _check_types(rows(), bf_mask, history, f"{tag} constructor")
     if r:
         return r
     for k, c in enumerate(calls[1:], 1):
+        if c.get("itd"):
+            _, exc, _ = _call_real(bc.internal_to_dirichlet, g)
+            if exc is not None:
+                return {"what": f"internal_to_dirichlet (call {k}) raised {type(exc).__name__}", "key": "internal_to_dirichlet-raised"}
+            for d, (neu, di, rob) in enumerate(rows()):
+                for f in np.flatnonzero(frac):
+                    f = int(f)
+                    if rob[f] and di[f]:
+                        return {"what": f"internal_to_dirichlet (call {k}): component {d}: fracture face {f} had a Robin condition and is now Dirichlet AND Robin (is_rob not cleared)",
+                                "key": "internal_to_dirichlet-robin-not-cleared"}
+                    if not di[f] or neu[f] or rob[f]:
+                        return {"what": f"internal_to_dirichlet (call {k}): component {d}: fracture face {f} is not Dirichlet only", "key": "internal_to_dirichlet-not-dirichlet"}
+            history += [(int(f), "dir") for f in np.flatnonzero(frac)]
+            r = _check_partition(rows(), bf_mask, f"after internal_to_dirichlet call {k}") or _check_types(rows(), bf_mask, history, f"after internal_to_dirichlet call {k}")
+            if r:
+                return r
+            continue
         want = _expected_error(g, bf_mask, c)
         _, exc, _ = _call_real(bc.set_bc, _faces_arg(c["faces"]), c["cond"])
         if exc is not None and want is None:
@@ -458,7 +508,7 @@ def nontrivial(case):
         return True
     seen = {}
     for c in case["calls"]:
-        if c["faces"] is None or c["cond"] is None:
+        if c.get("itd") or c["faces"] is None or c["cond"] is None:
             continue
         try:
             for f, s in _pairs(c):
@@ -475,13 +525,23 @@ def shrink_candidates(case):
     for i in range(1, len(calls)):
         yield dict(case, calls=calls[:i] + calls[i + 1:], malformed=mal[:i] + mal[i + 1:])
     for i, c in enumerate(calls):
-        fj = c["faces"]
+        fj = c.get("faces")
         if fj and "idx" in fj and len(fj["idx"]) > 1:
             for j in range(len(fj["idx"])):
                 c2 = dict(c, faces={"idx": fj["idx"][:j] + fj["idx"][j + 1:]})
                 if isinstance(c["cond"], list) and len(c["cond"]) == len(fj["idx"]):
                     c2["cond"] = c["cond"][:j] + c["cond"][j + 1:]
                 yield dict(case, calls=calls[:i] + [c2] + calls[i + 1:])
+
+
+def _has_dir_rob_conflict(call):
+    try:
+        seen = {}
+        for f, kw in _pairs(call) if call.get("cond") is not None else []:
+            seen.setdefault(f, set()).add(kw)
+        return any({"dir", "rob"} <= v for v in seen.values())
+    except Exception:  # noqa: BLE001
+        return False
 
 
 def stats(cases, impl_outs):
@@ -492,8 +552,10 @@ def stats(cases, impl_outs):
         "grid_kinds": dict(kinds),
         "variants": dict(Counter(c["variant"] for c in cases)),
         "calls": sum(len(c["calls"]) for c in cases),
-        "mask_calls": sum(1 for c in cases for k in c["calls"] if k["faces"] and "mask" in k["faces"]),
-        "faces_none_calls": sum(1 for c in cases for k in c["calls"] if k["faces"] is None),
+        "mask_calls": sum(1 for c in cases for k in c["calls"] if k.get("faces") and "mask" in k["faces"]),
+        "faces_none_calls": sum(1 for c in cases for k in c["calls"] if not k.get("itd") and k["faces"] is None),
+        "internal_to_dirichlet_calls": sum(1 for c in cases for k in c["calls"] if k.get("itd")),
+        "same_face_dir_and_rob_in_one_call": sum(1 for c in cases for k in c["calls"] if not k.get("itd") and _has_dir_rob_conflict(k)),
         "malformed_calls": dict(mal),
         "constructor_errors": sum(1 for o in impl_outs if isinstance(o, list) and o and "err" in o[0]),
         "set_bc_raised": sum(1 for o in impl_outs if isinstance(o, list) for x in o[1:] if x.get("raised")),
